@@ -229,17 +229,13 @@ def _r10d(rep):
     fn = tu.functions.get("phpy_get_thermal_properties")
     if fn is None:
         raise AnalysisError("anchor vanished: phpy_get_thermal_properties")
-    n = 0
-    for x in cast.walk(fn):
-        if x.get("kind") == "BinaryOperator" and x.get("opcode") in (">", ">=", "<", "<="):
-            a, b = cast.kids(x)
-            ta, tb = cast.text(a), cast.text(b)
-            if ta == "f" or tb == "f":
-                n += 1
-                rep.instance("R10d", CF, "phpy_get_thermal_properties", cast.text(x), ta == "f" and tb == "cutoff_frequency" and x["opcode"] == ">",
-                             "C mode filter is not 'f > cutoff_frequency'", line=tu.line(x))
-    if n == 0:
-        raise AnalysisError("R10d: no frequency comparison found in phpy_get_thermal_properties")
+    conds = kernel_path_conditions(fn)
+    if not conds:
+        raise AnalysisError("R10d: no accumulation found in phpy_get_thermal_properties")
+    for c in conds[:1] if all(x == conds[0] for x in conds) else conds:
+        fatoms = sorted(a for a in c if "f" in (a[0], a[2]) or a[0] == "?")
+        rep.instance("R10d", CF, "phpy_get_thermal_properties", f"mode filter on the path to the accumulations: {fatoms}", fatoms == [("cutoff_frequency", "<", "f")],
+                     "the C mode filter is not exactly 'f > cutoff_frequency': the kernel sums a different set of modes than the Python route (_calculate_thermal_property)", line=tu.line(fn))
     # the cutoff that reaches the kernel is the attribute (converted to eV like the frequencies)
     call = _phonoc_call(core.find_def(PY, "ThermalProperties._run_c_thermal_properties"), "thermal_properties")
     args = [core.src(a) for a in call.args]
@@ -435,23 +431,75 @@ def _r10f(rep):
     rep.instance("R10f", PY, "mode_zero", str(rets), set(rets) == {"np.zeros_like(freqs)", "0.0"}, "mode_zero no longer returns zero", line=mz.lineno)
     tu = cast.load(CF)
     kfn = tu.functions["phpy_get_thermal_properties"]
-    def atoms(e):
-        e = cast.strip(e)
-        if e.get("kind") == "BinaryOperator" and e.get("opcode") == "&&":
-            a, b = cast.kids(e)
-            return atoms(a) | atoms(b)
-        if e.get("kind") == "BinaryOperator" and e.get("opcode") in ("<", ">", "<=", ">="):
-            a, b = (cast.text(cast.strip(x)) for x in cast.kids(e))
-            op = e["opcode"]
-            if op in (">", ">="):
-                a, b, op = b, a, {">": "<", ">=": "<="}[op]
-            return {(a, op, b)}
-        return {("?", cast.text(e), "?")}
+    conds = kernel_path_conditions(kfn)
+    if not conds:
+        raise AnalysisError("R10f: no accumulation found in phpy_get_thermal_properties")
+    ok = all(("0", "<", "temperatures[j]") in c for c in conds)
+    rep.instance("R10f", CF, "phpy_get_thermal_properties", f"kernel guard: every accumulation runs under {sorted(set.intersection(*conds))}", ok,
+                 "the kernel does not restrict the harmonic forms to temperatures[j] > 0 (division by T = 0)", line=tu.line(kfn))
 
-    guards = [atoms(cast.kids(x)[0]) for x in cast.walk(kfn) if x.get("kind") == "IfStmt"]
-    want_g = {("0", "<", "temperatures[j]"), ("cutoff_frequency", "<", "f")}
-    rep.instance("R10f", CF, "phpy_get_thermal_properties", f"kernel guard {[sorted(g) for g in guards]}", guards == [want_g],
-                 "the kernel does not restrict the harmonic forms to temperatures[j] > 0 and f > cutoff_frequency", line=tu.line(kfn))
+
+def truth_atoms(e, positive=True):
+    """Comparison atoms (a, op, b) normalised to '<' / '<=' that hold when C expression e is `positive`."""
+    e = cast.strip(e)
+    k, op = e.get("kind"), e.get("opcode")
+    if k == "UnaryOperator" and op == "!":
+        return truth_atoms(cast.kids(e)[0], not positive)
+    if k == "BinaryOperator" and op in ("&&", "||"):
+        x, y = cast.kids(e)
+        if (op == "&&") == positive:
+            return truth_atoms(x, positive) | truth_atoms(y, positive)
+        return {("?", cast.text(e), "?")}
+    if k == "BinaryOperator" and op in ("<", ">", "<=", ">="):
+        x, y = (cast.text(cast.strip(t)) for t in cast.kids(e))
+        if op in (">", ">="):
+            x, y, op = y, x, {">": "<", ">=": "<="}[op]
+        if not positive:
+            x, y, op = y, x, {"<": "<=", "<=": "<"}[op]
+        return {(x, op, y)}
+    return {("?", ("" if positive else "!") + cast.text(e), "?")}
+
+
+def kernel_path_conditions(fn):
+    """For every `+=` statement of a C function: the comparison atoms that hold on the path to it
+    (enclosing if-conditions and earlier `if (c) continue;` guards of the enclosing loop bodies)."""
+    out = []
+
+    def only_continue(st):
+        ks = cast.kids(st) if st.get("kind") == "CompoundStmt" else [st]
+        return len(ks) == 1 and ks[0].get("kind") == "ContinueStmt"
+
+    def walk(st, conds):
+        k = st.get("kind")
+        if k == "CompoundStmt":
+            cur = set(conds)
+            for x in cast.kids(st):
+                if x.get("kind") == "IfStmt":
+                    ks = cast.kids(x)
+                    if len(ks) == 2 and only_continue(ks[1]):
+                        cur = cur | truth_atoms(ks[0], False)
+                        continue
+                walk(x, cur)
+            return
+        if k == "IfStmt":
+            ks = cast.kids(st)
+            walk(ks[1], conds | truth_atoms(ks[0], True))
+            if len(ks) > 2:
+                walk(ks[2], conds | truth_atoms(ks[0], False))
+            return
+        if k in ("ForStmt", "WhileStmt"):
+            walk(cast.kids(st)[-1], conds)
+            return
+        if k == "CompoundAssignOperator" and st.get("opcode") == "+=" and any(x.get("kind") == "CallExpr" for x in cast.walk(cast.kids(st)[1])):
+            out.append(set(conds))  # accumulation of a mode function (the plain row reduction at the end has no call)
+            return
+        if k not in ("DeclStmt", "BinaryOperator", "CallExpr", "ReturnStmt", "CompoundAssignOperator"):
+            for x in cast.kids(st):  # OpenMP directive / captured statement wrappers
+                if isinstance(x, dict) and x.get("kind"):
+                    walk(x, conds)
+
+    walk(cast.body(fn), set())
+    return out
 
 
 def selftest():
@@ -466,6 +514,8 @@ def selftest():
     b("zero-point sum over all positive modes", PY, "positive_fs = np.extract(freqs > self._cutoff_frequency, freqs)", "positive_fs = np.extract(freqs > 0.0, freqs)", "R10d", "freqs > 0.0")
     b("C route adds ZPE twice", PY, "fe = props[:, 0] * EvTokJmol + self._zero_point_energy", "fe = props[:, 0] * EvTokJmol + 2 * self._zero_point_energy", "R10e", "fe =")
     b("entropy not scaled to J on the C route", PY, "entropy = props[:, 1] * EvTokJmol * 1000", "entropy = props[:, 1] * EvTokJmol", "R10e", "entropy =")
+    n("temperature guard hoisted as an early continue", CF, "        for (j = 0; j < num_temp; j++) {\n            for (k = 0; k < num_bands; k++) {\n                f = freqs[i * num_bands + k];\n                if (temperatures[j] > 0 && f > cutoff_frequency) {", "        for (j = 0; j < num_temp; j++) {\n            if (!(temperatures[j] > 0)) {\n                continue;\n            }\n            for (k = 0; k < num_bands; k++) {\n                f = freqs[i * num_bands + k];\n                if (f > cutoff_frequency) {")
+    b("kernel drops high-frequency modes", CF, "                if (temperatures[j] > 0 && f > cutoff_frequency) {", "                if (temperatures[j] > 0 && f > cutoff_frequency && f < 100.0 * KB * temperatures[j]) {", "R10d", "mode filter")
     b("kernel guard admits T = 0", CF, "if (temperatures[j] > 0 && f > cutoff_frequency) {", "if (f > cutoff_frequency) {", "R10f", "kernel guard")
     b("kernel entropy column forgets the weight", CF, "                        get_entropy(temperatures[j], f, classical) * weights[i];", "                        get_entropy(temperatures[j], f, classical);", "R10e", "phpy_get_thermal_properties")
     b("kernel columns 1 and 2 swapped", CF, "                        get_entropy(temperatures[j], f, classical) * weights[i];", "                        get_heat_capacity(temperatures[j], f, classical) * weights[i];", "R10e", "phpy_get_thermal_properties")
